@@ -6,11 +6,11 @@ DECODE_FUNCS = [
     "packet.requestType", "packet.modifyParameters", "packet.extendedOperationName",
     "packet.simpleBindParameters", "packet.addParameters", "packet.searchParmeters", "packet.assert",
     "packet.assertApplicationRequest", "packet.deleteParameters", "decodeAttribute", "decodeControl",
-    "newMessage", "newRequest", "conn.readRequest", "conn.readPacket",
+    "newMessage", "newRequest", "conn.readRequest", "conn.readPacket", "decodeFilterDNAttributes",
 ]
 
 BER_TRUST = ["asn1-ber v1.5.5 ReadPacket modelled byte-for-byte (Ber/Parse.lean) and diffed against the real reader in stream `ber`; Real / GeneralizedTime content validation is a parameter",
-             "go-ldap DecompileFilter is a parameter of the model; its answer is supplied per case by the harness"]
+             "go-ldap v3.4.6 DecompileFilter / EscapeFilter modelled byte for byte (Gldap/Filter.lean: tag-only dispatch, recovered panics as errors, the dnAttributes flag as gldap decodes it); every case of the decode, mux, session and tddir streams that reaches a search filter compares the model's string with the real one, incl. hostile filter trees"]
 
 CONTROL_FUNCS = [
     "decodeControl", "encodeControls", "ControlString.Encode", "ControlManageDsaIT.Encode", "ControlPaging.Encode",
@@ -53,8 +53,8 @@ RUNTIME_TRUST = ["sync.Mutex / sync.WaitGroup / context cancellation / go statem
 PROPS = {
     "C01": {
         "inventory_closure": True,
-        "lean": ["GldapModel.Props.C01", "GldapModel.Props.Session"],
-        "audit": ["GldapModel/Audit/C01.lean", "GldapModel/Audit/Session.lean"],
+        "lean": ["GldapModel.Props.C01", "GldapModel.Props.Filter", "GldapModel.Props.Session"],
+        "audit": ["GldapModel/Audit/C01.lean", "GldapModel/Audit/Filter.lean", "GldapModel/Audit/Session.lean"],
         "inventory": DECODE_FUNCS + ["conn.serveRequests", "conn.readRequest", "conn.readPacket"],
         "streams": [
             {"stream": "decode-valid", "n_quick": 20000, "n_thorough": 2000000},
@@ -63,7 +63,7 @@ PROPS = {
             {"stream": "session", "n_quick": 400, "n_thorough": 40000, "timeout_quick": 900, "timeout_thorough": 6000},
         ],
         "trusted": BER_TRUST,
-        "assumptions": ["filters are compared semantically: the delivered filter string must recompile to the client's filter bytes"],
+        "assumptions": ["filters: the theorem gives the RFC 4515 string of the client's filter tree (C01_filter_roundtrip); that go-ldap's CompileFilter maps that string back to the same bytes is checked per generated filter by the harness, not proved"],
     },
     "C03": {
         "lean": ["GldapModel.Props.C03", "GldapModel.Props.Session"],
